@@ -163,7 +163,18 @@ func endToEnd() {
 	}
 	ep, _ := h.S.NewEndpoint(udp.ProtocolNumber, ipv4.ProtocolNumber, &waiter.Queue{})
 	ep.Bind(tcpip.FullAddress{Port: 7000}, nil)
-	inject := func(b []byte) { h.L.Inject(ipv4.ProtocolNumber, b, "") }
+	// linkPad: bytes the link appends behind each IP packet (minimum frame size, trailers);
+	// they are not part of the packet and must not find their way into a datagram
+	linkPad := 0
+	inject := func(b []byte) {
+		if linkPad > 0 {
+			b = append([]byte(nil), b...)
+			for i := 0; i < linkPad; i++ {
+				b = append(b, byte(0xa5+i))
+			}
+		}
+		h.L.Inject(ipv4.ProtocolNumber, b, "")
+	}
 	readAll := func() (got [][]byte) {
 		for {
 			v, _, e := ep.Read(nil)
@@ -224,7 +235,12 @@ func endToEnd() {
 			}
 		}
 		mode := r.Intn(4)
-		rep := map[string]interface{}{"k": k, "differs_in": diff, "fragments": []int{len(pa), len(pb)}, "mode": mode}
+		linkPad = 0
+		if r.Chance(1, 4) {
+			linkPad = []int{1, 7, 8, 18, 1 + r.Intn(60)}[r.Intn(5)]
+			run.Count("e2e_rounds_with_link_padding", 1)
+		}
+		rep := map[string]interface{}{"k": k, "differs_in": diff, "fragments": []int{len(pa), len(pb)}, "mode": mode, "link_padding": linkPad}
 		switch mode {
 		case 0, 1: // both complete: both delivered intact, nothing mixed
 			for _, f := range seq {
